@@ -16,10 +16,12 @@ for f in sorted(glob.glob(os.path.join(VERIF, "seeded", "*", "meta.json"))):
             d = v["detail"][0]
             if "signature=" in d:
                 sig = d.split("signature=")[1].split(" ::")[0]
+    if not caught and m.get("note"):
+        sig = m["note"]
     summ = (m.get("summary") or "").replace("\n", " ").replace("|", "/")
     needs = (m.get("needs_to_manifest") or "").replace("\n", " ").replace("|", "/")
     rows.append((name, m.get("property"), ", ".join(m.get("files_changed") or []), summ[:220], needs[:200],
-                 ", ".join(caught) if caught else "**not caught**", sig[:80]))
+                 ", ".join(caught) if caught else "**not caught**", sig[:300 if not caught else 80]))
 with open(os.path.join(VERIF, "seeded", "README.md"), "w") as out:
     out.write("# Seeded changes (written by independent agents that saw only the property text; confirmed with lib/seedcheck.py)\n\n")
     out.write("Each directory holds patch.diff, the demonstration and meta.json (what was run, which checks were run against it and their exit codes).\n")
